@@ -17,7 +17,7 @@ PROP = 'C12'
 MANIFEST = dict(
     category='exploration', design_ref='DESIGN.md §3 C12',
     technique='bounded-exhaustive enumeration of (lexicon, expand lexicon) pairs with partially overlapping ILIs x expand settings on the real query layer vs a reference model of ILI-mediated relation borrowing',
-    text='Every lexicon L with up to 2 (thorough: 3) synsets whose ILIs range over {i1, i2, none, proposed} and whose own hypernym relations range over subsets of the ordered pairs is paired with every expand lexicon E of 3 synsets (ILI patterns with unique, repeated and missing ILIs; every subset of the 6 possible hypernym edges; thorough: a second expand lexicon E2). For each synset of L and each expand setting (disabled, explicit E, explicit "E E2", default) relations(), get_related(), relation_map(), hypernyms(), hypernym_paths() and closure() are compared with the reference: own relations first, then for each E-synset sharing the ILI its relations with targets mapped to the L-synsets of the target ILI or to an *INFERRED* placeholder carrying that ILI, ILI-less targets dropped, Relation objects keeping E\'s source/target/lexicon; paths through chains of placeholders included, and every placeholder met is itself queried (get_related, hypernym_paths, closure) against the same rule. A separate configuration space checks expanded_lexicons() and the WnWarning for every combination of declared / undeclared and installed / missing dependencies in restricted and unrestricted mode.',
+    text='Every lexicon L with up to 2 (thorough: 3) synsets whose ILIs range over {i1, i2, none, proposed} and whose own hypernym relations range over subsets of the ordered pairs is paired with every expand lexicon E of 3 synsets (ILI patterns with unique, repeated and missing ILIs; every subset of the 6 possible hypernym edges; thorough: a second expand lexicon E2). For each synset of L and each expand setting (disabled, explicit E, explicit "E E2", default) relations(), get_related(), relation_map(), hypernyms(), hypernym_paths() and closure() are compared with the reference: own relations first, then for each E-synset sharing the ILI its relations with targets mapped to the L-synsets of the target ILI or to an *INFERRED* placeholder carrying that ILI, ILI-less targets dropped, Relation objects keeping E\'s source/target/lexicon; paths through chains of placeholders included, and every placeholder met is itself queried (get_related, hypernym_paths, closure) against the same rule. A separate configuration space checks expanded_lexicons() and the WnWarning for every combination of declared / undeclared and installed / missing dependencies in restricted and unrestricted mode. Histories in one process: the queried lexicon is observed, removed, added again with other ILIs (re-using the freed rowids) and observed again, for 20 ILI sequences x 4 (thorough: 63) edge sets of the expand lexicon.',
     note='Order is compared only for "own relations before borrowed ones". Two *INFERRED* placeholders are distinguished by their ILI.',
 )
 
